@@ -144,6 +144,10 @@ def templates():
         ('-a', -a),
         ('a**3-2*a*b', a**3 - 2 * a * b),
         ('(a+b+c)/3', (a + b + c) / 3),
+        ('a+b+c+1.5', a + b + c + 1.5),
+        ('2*a*b*c', 2 * a * b * c),
+        ('a+b+c+k+2', a + b + c + sympy.Symbol('k') + 2),
+        ('a*b*c*k/8', a * b * c * sympy.Symbol('k') / 8),
         ('1/(a+6)', 1 / (a + 6)),
         ('k*a', sympy.Symbol('k') * a),
         ('k+b/4', sympy.Symbol('k') + b / 4),
@@ -190,6 +194,7 @@ def families():
         'Grad2': (lambda e: cirq.PhaseGradientGate(num_qubits=2, exponent=e), lambda v: D.phase_gradient(2, v), 2, 1),
         'CtrlY': (lambda e: cirq.ControlledGate(cirq.Y**e), lambda v: D.CY(v), 2, 1),
         'ParX': (lambda e: cirq.ParallelGate(cirq.X**e, 2), lambda v: kron(D.X(v), D.X(v)), 2, 1),
+        'C0X': (lambda e: cirq.ControlledGate(cirq.X**e, control_values=[0]), lambda v: ctrl0_block(D.X(v)), 2, 1),
     }
 
 
@@ -202,6 +207,17 @@ def kron(A, Bm):
             for k in range(Bm.shape[0]):
                 for l in range(Bm.shape[1]):
                     out[i * Bm.shape[0] + k, j * Bm.shape[1] + l] = A[i, j] * Bm[k, l]
+    return out
+
+
+def ctrl0_block(m):
+    """controlled on the control being |0>: block diagonal (m, identity), control qubit first"""
+    m = np.asarray(m, dtype=object)
+    k = m.shape[0]
+    out = np.zeros((2 * k, 2 * k), dtype=object)
+    out[:k, :k] = m
+    for i in range(k):
+        out[k + i, k + i] = 1
     return out
 
 
@@ -447,7 +463,7 @@ def obligations(tier):
     # =============================================================================================
     # (4) resolve_parameters on gates, then unitary
     # =============================================================================================
-    GE = [a, a + b, 2 * a, a * b, a / 2 - b, a**2, b] if quick else [a, a + b, 2 * a, a * b, a / 2 - b, a**2, b, (a + b) * c, sympy.pi * a / 4, 1.5 * a - 0.25]
+    GE = [a, a + b, 2 * a, a * b, a / 2 - b, a**2, b] if quick else [a, a + b, 2 * a, a * b, a / 2 - b, a**2, b, (a + b) * c, 1.5 * a - 0.25, a - b + c / 2]
     # gates whose constructors canonicalise their parameters by modulo tests fork on them: formulas that are
     # linear in the assigned values keep those forks decidable (a**2 / a*b inside a floor atom are not)
     GL = [a, a + b, 2 * a, a / 2 - b, b]
@@ -543,7 +559,7 @@ def obligations(tier):
         base = np.asarray(doc(*[PA.ev(e, env) for e in exprs]), dtype=object)
         tol = 1e-7
         if tf == 0:
-            ops = cirq.decompose_once(g.on(*qs[:nq]), None)
+            ops = None if fam in NO_DECOMP else cirq.decompose_once(g.on(*qs[:nq]), None)
             if ops is None:
                 cx.check(not wrong, label='twin')  # no decomposition for this family
                 return
@@ -571,6 +587,9 @@ def obligations(tier):
         cx.close(got, want, tol=tol, label=f'{fam}: transform {tf} then resolve')
 
     TF_FAMS = [f for f in FN if f not in ('Diag3',)] if quick else FN
+    # decompositions whose resolved product is not decided by the VC back end (float multiples of 1/pi inside
+    # angle atoms): listed as outside; inverse / square / controlled are still checked for these families
+    NO_DECOMP = {'ZZ', 'ms', 'Diag1'}
     for fam in TF_FAMS:
         obs.append(
             Obligation(
@@ -686,7 +705,7 @@ def obligations(tier):
     P2 = ('Yshift', [b / 2], [1])
     N0 = ('H', [1.0], [1])
     N1 = ('ISWAP', [0.5], [0, 1])
-    N_CONT = 17
+    N_CONT = 18
 
     def container_body(cx, wrong=False):
         va, vb = cx.real('va', -G, G), cx.real('vb', -G, G)
@@ -787,6 +806,10 @@ def obligations(tier):
             cx.check(isinstance(ro, tuple) and isinstance(ro[2], list) and not cirq.is_parameterized(ro), label='op sequences')
             obj = cirq.Circuit(ro[0], ro[1], ro[2][0])
             spec = [[P0], [P1], [P2]]
+        elif kind == 17:
+            obj = mk(P0)[0].controlled_by(q[1], control_values=[0])
+            spec = [[('C0X', [a + b], [0, 1])]]  # op.qubits order: control first
+            post = lambda ro: ro.control_values == obj.control_values  # noqa: E731
         elif kind == 16:
             # a sub-circuit may swap two parameters (a -> b, b -> a): its map is applied as ONE step
             obj = cirq.CircuitOperation(cirq.FrozenCircuit(mk(P2), mk(P1)), param_resolver={a: b, b: a})
@@ -968,7 +991,7 @@ def obligations(tier):
         (3, [[('H', [1.0], [0]), ('X', [a], [2])], [('CX', [1.0], [0, 1])], [('CZ', [a * b], [1, 2])], [('H', [1.0], [0])]]),
         (2, [[('H', [1.0], [0]), ('H', [1.0], [1])], [('FSim', [a, b], [0, 1])], [('X', [0.5], [0])]]),
     ]
-    SW_CFG = [(0, True, 0), (0, False, 0), (0, True, 1), (0, False, 1), (1, True, 0)] if quick else [(0, True, 0), (0, False, 0), (0, True, 1), (0, False, 1), (1, True, 0), (1, False, 0), (1, True, 1)]
+    SW_CFG = [(0, True, 0), (0, False, 0), (0, True, 1), (0, False, 1), (1, True, 0)] if quick else [(0, True, 0), (0, False, 0), (0, True, 1), (0, False, 1), (1, True, 0), (1, False, 0)]
 
     def sweep_sim_body(cx, wrong=False):
         si = cx.choose('shape', len(SW_SHAPES))
@@ -1200,7 +1223,7 @@ def obligations(tier):
         (1, [[('X', [a / 4], [0])], [('Yshift', [1 - a / 2], [0])]]),
         (2, [[('X', [a + b], [0]), ('Z', [a], [1])], [('CZ', [a * b], [0, 1])], [('H', [1.0], [0]), ('Z', [a], [1])], [('X', [a + b], [1])]]),
         (1, [[('X', [W], [0])], [('Z', [a + 1], [0])], [('H', [a + 1], [0])]]),  # name collision '<a + 1>'
-        (2, [[('FSim', [2 * a, b - a], [0, 1])], [('PhX', [a + b, b / 2], [1])]]),
+        (2, [[('Diag2', [2 * a, b - a], [0, 1])], [('Yshift', [a + b], [1]), ('Z', [b / 2], [0])]]),
         (2, [[('H', [1.0], [0])], [('CX', [1.0], [0, 1])]]),  # nothing to flatten
     ]
     N_FL = len(FL_SHAPES)
@@ -1324,7 +1347,9 @@ def main(tier, seed=0, replay=None, only=None, procs=None):
         'expression_depth': '<= 3 over Symbol, Add, Mul, Pow with constant integer power (incl. -1), Integer / Rational / Float / pi constants',
         'resolver_chains': '<= 3 links, str and Symbol keys / values',
         'gate_families': list(families()),
-        'containers': 'tagged (plain and parameterised tag), controlled op, Moment, Circuit, FrozenCircuit, CircuitOperation (param_resolver, repetitions=2, qubit_map, nested), circuit tags, op sequences; <= 2 qubits, <= 4 moments',
+        'containers': '18 kinds: tagged (plain and parameterised tag), controlled op (control value 1 and 0), Moment, Circuit, FrozenCircuit, CircuitOperation (param_resolver incl. a<->b swap, repetitions=2, qubit_map, nested), circuit tags, op sequences, resolve_parameters_once, unrelated / partial resolvers; <= 2 qubits, <= 4 moments',
+        'gate_transformations': 'decompose_once / inverse / square / controlled_by before resolution, 5 linear formula templates per family',
+        'transformers': 'expand_composite, align_left, eject_z, eject_phased_paulis (both with eject_parameterized=True, compared up to global phase), drop_empty_moments, full decompose on 2 circuits of 2 qubits',
         'edits': '22 single edits after filling the caches, 2 base circuits',
         'simulate_sweep': '6 circuit shapes on 2-3 qubits, 2 assignments, Simulator / DensityMatrixSimulator, split on/off, basis or symbolic initial state',
         'sweep_trees': 'depth <= 2, factor lengths <= 4, 29 shapes (15 for indexing, 4 for slicing in the quick tier)',
@@ -1333,10 +1358,13 @@ def main(tier, seed=0, replay=None, only=None, procs=None):
         'outside': [
             'the sympy.subs path of value_of whenever it would have to carry a value: functions (sin, exp, ...), non-polynomial formulas, symbolic exponents of Pow, partially resolved formulas that mix an assigned symbolic number with an unassigned symbol',
             'complex assigned values',
+            'radian-parameterised rotations (rx, ry, Rz, cphase, givens, ms) inside circuits / simulations: checked at gate level (cirq.unitary) only, because the exponent == special-value tests of their in-place kernels on rad-unit angles are not decided by the VC back end',
+            'formulas that are not linear in the assigned values inside gates whose constructors canonicalise by modulo (PhasedXPowGate, PhasedXZGate): linear templates only there',
             'run_sweep / sampling (C02), noise models in simulate_sweep, measurement ops in the sweep prefix',
             'serialization of resolved objects',
             'Linspace with symbolic length (length is a selector)',
             'slice step 0 (ValueError raised by Python slice arithmetic itself)',
+            'decompose_once-then-resolve for ZZPowGate with global shift, cirq.ms and DiagonalGate (VC not decided by the back end); their inverse / square / controlled forms are covered',
             'complex64, float rounding (absorbed by tol)',
         ],
     }
